@@ -193,6 +193,19 @@ def nice_model_prefs(keys, amounts, scalars):
     return out
 
 
+# Callee contracts a property RELIES on (modular verification: a caller is checked against the callee's contract, so the
+# check of the caller's property re-discharges the clauses of that contract it uses; a change inside the callee that
+# breaks one of them is then reported under every property that depends on it, not only under the callee's own).
+_TRANSFER_CONTRACT = ('conserve', 'uniform', 'size', 'nothing-moved', 'cap', 'refuse', 'accept', 'safe', 'vol', 'nonneg')
+_INIT_CONTRACT = ('nonneg', 'cap', 'refuse', 'accept', 'safe', 'vol', 'contents')
+DEPENDS = {
+    'C12': {'Container._transfer': _TRANSFER_CONTRACT, 'Container.__init__': _INIT_CONTRACT},     # mod_transfer / mod_init
+    'C05': {'Container._transfer': _TRANSFER_CONTRACT, 'Container.__init__': _INIT_CONTRACT},
+    'C02': {'Container._transfer': ('vol',)},    # chains of transfers: the next transfer's size relies on volume = sum
+    'C03': {'Container._transfer': ('vol',)},    # refusal by volume compares with the stored volume
+}
+
+
 # ================================================================================================ generic operation contracts
 class Op:
     """A function under contract.  Subclasses provide setup / invoke / emit and, for refutation, finite configurations
@@ -236,9 +249,10 @@ class Op:
         if pid is None:
             return True
         cl = self.clause_of(name)
+        dep = DEPENDS.get(pid, {}).get(self.FN, ())
         for key, pids in self.PROPS_OF.items():
             if cl == key or cl.startswith(key + '[') or cl.startswith(key + '/') or f'[{key}' in cl:
-                if pid in pids:
+                if pid in pids or key in dep:
                     return True
         return False
 
@@ -291,8 +305,17 @@ def run_op(op, pid, case, finite_max=2):
             res += vc.discharge(I, pre, cname, timeout, ladder=ladder, only=only, fallbacks=fallbacks)
         return dedupe(res)
     res = one_pass(4000, None, False)
+    if any(r['name'].endswith('/unsupported') for r in res):
+        # the body uses a construct the unbounded evaluation cannot follow (so nothing is proved for this case); the
+        # finite instantiation executes the same AST on explicit key sets and can still REFUTE: a counterexample found
+        # there is a concrete input and is reported (and replayed) as such
+        have = {r['name'] for r in res}
+        for name, hit in finite_search(op, case, None, max(finite_max, 2), pid).items():
+            if name not in have:
+                res.append(dict(hit, independent=True, backend='z3api (finite instantiation)',
+                                note=((hit.get('note') or '') + ' [unbounded run unsupported; refuted on an explicit key set]')[:600]))
     failing = [r for r in res if r['kind'] in ('property', 'aux') and r['verdict'] != 'proved'
-               and not r['name'].endswith('/unsupported')]
+               and not r['name'].endswith('/unsupported') and not r.get('independent')]
     if failing:
         names = {r['name'] for r in failing if r['kind'] == 'property'}
         if any(r['kind'] == 'aux' for r in failing):
@@ -335,7 +358,7 @@ def run_op(op, pid, case, finite_max=2):
 
 def finite_search(op, case, names, nmax, pid=None):
     found = {}
-    if not names:
+    if names is not None and not names:
         return found
     ctr = contracts()
     cname = op.case_name(case)
@@ -363,10 +386,13 @@ def finite_search(op, case, names, nmax, pid=None):
 
             def replay(mv, ob, st=st, fin=fin):
                 return op.replay(mv, st, case, fin, ob.name)
-            for r in vc.discharge(I, pre, cname, 10000, inputs, replay, prefer=op.prefs(I, st, case, fin),
-                                  only={n for n in names if n not in found}):
-                if r['name'] in names and r['name'] not in found and r['verdict'] == 'refuted' and r['kind'] == 'property':
+            only = None if names is None else {n for n in names if n not in found}
+            for r in vc.discharge(I, pre, cname, 10000, inputs, replay, prefer=op.prefs(I, st, case, fin), only=only):
+                if names is None and not op.serves(r['name'], pid):
+                    continue
+                if (names is None or r['name'] in names) and r['name'] not in found and r['verdict'] == 'refuted' \
+                        and r['kind'] == 'property':
                     found[r['name']] = r
-        if names <= set(found):
+        if names is not None and names <= set(found):
             break
     return found
